@@ -179,19 +179,52 @@ class Repo:
                         self.funcs_by_name.setdefault(n.name, []).append(fu)
 
     # ---- look-ups -------------------------------------------------------------
+    @staticmethod
+    def _core(name):
+        return name.strip('_').lower()
+
+    def _renamed(self, name, candidates):
+        """a PRIVATE helper that was renamed keeps its role: the unique candidate whose name still carries the old name's
+        core (prefix / suffix added or dropped).  Public names are the interface and must match exactly."""
+        if not name.startswith('_') or name.startswith('__'):
+            return None
+        core = self._core(name)
+        hits = [c for c in candidates if c.name != name and (core in self._core(c.name) or (len(self._core(c.name)) >= 6 and self._core(c.name) in core))]
+        # prefer the tightest match (fewest extra characters); it must be unique
+        hits.sort(key=lambda c: abs(len(self._core(c.name)) - len(core)))
+        if hits and (len(hits) == 1 or abs(len(self._core(hits[0].name)) - len(core)) < abs(len(self._core(hits[1].name)) - len(core))):
+            return hits[0]
+        return None
+
     def method(self, cls, name, required=True):
         m = self.classes.get(cls, {}).get(name)
+        if m is None:
+            m = self._renamed(name, list(self.classes.get(cls, {}).values()))
         if m is None and required:
             raise AnalysisError('anchor vanished: method %s.%s not found' % (cls, name))
         return m
+
+    def actual(self, cls, name):
+        """the name under which the method `name` of class `cls` exists in this tree (see _renamed)"""
+        m = self.method(cls, name, required=False)
+        return m.name if m is not None else name
 
     def function(self, name, relpath=None, required=True):
         c = [f for f in self.funcs_by_name.get(name, []) if relpath is None or f.relpath == relpath]
         if len(c) == 1:
             return c[0]
+        if not c:
+            pool = [f for fs in self.funcs_by_name.values() for f in fs if relpath is None or f.relpath == relpath]
+            r = self._renamed(name, pool)
+            if r is not None:
+                return r
         if not c and not required:
             return None
         raise AnalysisError('anchor vanished or ambiguous: function %s (%d candidates)' % (name, len(c)))
+
+    def actual_function(self, name, relpath=None):
+        f = self.function(name, relpath, required=False)
+        return f.name if f is not None else name
 
     def all_funcs(self):
         for c in self.classes.values():
